@@ -27,6 +27,9 @@ func c02Oracle(pc progCase, r *Result) {
 	if cc := crashClass(ov); cc != "" {
 		r.Fail(cc, append([]string{"backend:vm"}, pc.Tags...), pc.P.Text, ov.String())
 	}
+	if hasTag(pc.Tags, "vm-only") {
+		return // trigger imports are not implemented by the interpreter's hosts
+	}
 	ot := RunTree(a, defaultOpts())
 	r.Outcome("tree:" + ot.Class)
 	r.Distinct("tree|" + ot.Key())
@@ -42,6 +45,10 @@ func c04Oracle(pc progCase, r *Result) {
 	a := Analyze(map[string]string{"main": pc.P.Text}, true)
 	if a.Obs.Class == "HOST-PANIC" || !a.Obs.Accepted() {
 		r.Note("not-accepted", 1)
+		return
+	}
+	if hasTag(pc.Tags, "vm-only") {
+		r.Note("outside the language both backends implement (triggers)", 1)
 		return
 	}
 	ov := RunVM(a, defaultOpts())
@@ -96,4 +103,13 @@ func init() {
 		}
 		return c
 	})
+}
+
+func hasTag(tags []string, t string) bool {
+	for _, x := range tags {
+		if x == t {
+			return true
+		}
+	}
+	return false
 }
